@@ -656,7 +656,9 @@ class AccessoryDriver:
                 ) as file_handle:
                     tmp_filename = file_handle.name
                     logger.debug("Created temp persist file '%s' named '%s'", file_handle, tmp_filename)
-                    self.encoder.persist(file_handle, self.state)
+                    # No change of the state may land between the reads of the encoder.
+                    with self.state.lock:
+                        self.encoder.persist(file_handle, self.state)
                 if (
                     os.name == "nt"
                 ):  # Or `[WinError 5] Access Denied` will be raised on Windows
